@@ -87,6 +87,8 @@ func runReplays(cases []*ReplayCase, verbose bool) error {
 	sort.Strings(pkgs)
 	for _, p := range pkgs {
 		cs := byPkg[p]
+		// cases expected to block (deadlocks) run last so that they do not hide the others
+		sort.SliceStable(cs, func(i, j int) bool { return cs[i].Kind != "deadlock" && cs[j].Kind == "deadlock" })
 		ov := buildOverlay([]string{p}, true)
 		name := pkgNameOf(filepath.Join(repoDir, p))
 		var rows, sw strings.Builder
@@ -126,7 +128,13 @@ func runReplays(cases []*ReplayCase, verbose bool) error {
 		ovj, _ := json.Marshal(map[string]interface{}{"Replace": repl})
 		ovPath := filepath.Join(tmp, "overlay_"+strings.ReplaceAll(p, "/", "_")+".json")
 		os.WriteFile(ovPath, ovj, 0644)
-		args := []string{"test", "-vet=off", "-count=1", "-timeout", "600s", "-overlay", ovPath, "-run", "^TestVerifReplay$", "-v"}
+		tmo := "600s"
+		for _, c := range cs {
+			if c.Kind == "deadlock" {
+				tmo = "90s" // a reproduced deadlock shows as the test timing out
+			}
+		}
+		args := []string{"test", "-vet=off", "-count=1", "-timeout", tmo, "-overlay", ovPath, "-run", "^TestVerifReplay$", "-v"}
 		for _, c := range cs {
 			if c.Kind == "race" {
 				args = append(args, "-race")
@@ -158,6 +166,9 @@ func runReplays(cases []*ReplayCase, verbose bool) error {
 			if !ok {
 				r = "norun: " + lastLines(txt, 6)
 			}
+			if c.Kind == "deadlock" && !ok && (strings.Contains(txt, "test timed out") || strings.Contains(txt, "all goroutines are asleep")) {
+				r = "DEADLOCK reproduced natively: the replay blocked until the test timed out"
+			}
 			if c.Kind == "race" && strings.Contains(txt, "WARNING: DATA RACE") {
 				r = "DATA RACE reported by the Go race detector; " + r
 			}
@@ -184,7 +195,9 @@ func replayConfirms(c *ReplayCase) bool {
 		return strings.HasPrefix(c.Result, "panic: VERIF-ASSERT-FAILED")
 	case "race":
 		return strings.HasPrefix(c.Result, "DATA RACE")
-	case "panic", "deadlock":
+	case "deadlock":
+		return strings.HasPrefix(c.Result, "DEADLOCK")
+	case "panic":
 		return strings.HasPrefix(c.Result, "panic:") && !strings.Contains(c.Result, "VERIF-ASSUME-FAILED") && !strings.Contains(c.Result, "VERIF-REPLAY-EXHAUSTED") && !strings.Contains(c.Result, "VERIF-ASSERT-FAILED")
 	}
 	return false
